@@ -110,7 +110,7 @@ def emit(kind):
     P1 = "Probe" if kind == "agent" else "MProbe"
     P2 = "Probe2" if kind == "agent" else "MProbe2"
     sig = "<R: RngCore>(s: &mut Twin, env: &mut Env, rng: &mut R)" if kind == "agent" else "<R: RngCore, const M: usize, const N: usize>(s: &mut Twin, env: &mut MarketEnv<M, N>, rng: &mut R)"
-    twins = [("a", [("first", P1), ("second", P2)]), ("b", [("second", P1), ("first", P1), ("third", P2)]), ("c", [("third", P2), ("first", P1)])]
+    twins = [("a", [("first", P1), ("second", P2)]), ("b", [("second", P1), ("first", P1), ("third", P2)]), ("c", [("third", P2), ("second", P2), ("first", P1)])]
     for tag, fs in twins:
         body = "\n".join(f"        pub {n}: {t}," for n, t in fs)
         builds = "\n".join(f"        let {n} = {t}::new(log, next);" for n, t in fs)
